@@ -1,6 +1,5 @@
 //! C18 — changing the minimum alignment keeps the position aligned and data intact.
 use crate::common::*;
-use crate::step::Win;
 use bump_scope::alloc::Allocator;
 use bump_scope::settings::{BumpAllocatorSettings, BumpSettings};
 use bump_scope::{BaseAllocator, Bump, BumpScope};
@@ -20,6 +19,13 @@ where
     let Ok(mut bump) = Bump::<VA, S<M, UP>>::try_new() else { return };
     set_budget(0);
     let w1 = Win::of(bump.stats().current_chunk().unwrap());
+    // two earlier blocks: `a0` stays live, `b` (the newest) may be deallocated inside the region
+    let la0 = any_layout(3, 0);
+    let Ok(a0) = bump.allocate(la0) else { return };
+    let a0 = a0.cast::<u8>();
+    let va0: u8 = kani::any();
+    kani::assume(la0.size() > 0);
+    unsafe { w1.write(addr(a0), va0) };
     let lb = any_layout(5, 2);
     let Ok(b) = bump.allocate(lb) else { return };
     let b = b.cast::<u8>();
@@ -33,8 +39,14 @@ where
     let l1 = if inner_budget == 1 { core::alloc::Layout::from_size_align(20, 4).unwrap() } else { any_layout(8, 3) };
     let l2 = any_layout(8, 3);
     set_budget(inner_budget);
+    let dealloc_b: bool = kani::any();
     let (i1, i2) = bump.aligned::<N, _>(|s| {
         assert!(pos(s) % N == 0, "C18: position not a multiple of N at entry of aligned::<N>");
+        if dealloc_b {
+            // give back the newest block while the inner alignment is in force
+            unsafe { s.deallocate(b, lb) };
+            assert!(pos(s) % N == 0, "C18: position not a multiple of N after a deallocation inside aligned::<N>");
+        }
         let a1 = s.allocate(l1);
         assert!(pos(s) % N == 0, "C18: position not a multiple of N after an allocation inside aligned::<N>");
         let a2 = s.allocate(l2);
@@ -48,6 +60,23 @@ where
     // blocks before / inside / after stay disjoint; the block allocated before is intact
     let l3 = any_layout(8, 3);
     let after = bump.allocate(l3).map(|p| addr(p.cast())).unwrap_or(0);
+    kani::cover!(dealloc_b && i1 != 0, "allocated after a deallocation inside the region");
+    // the block that stayed live is never overlapped and keeps its contents
+    if i1 != 0 {
+        assert!(disjoint(i1, l1.size(), addr(a0), la0.size()), "C18/C01: inner block overlaps a live block allocated before the region");
+    }
+    if i2 != 0 {
+        assert!(disjoint(i2, l2.size(), addr(a0), la0.size()), "C18/C01: inner block overlaps a live block allocated before the region");
+    }
+    if after != 0 {
+        assert!(disjoint(after, l3.size(), addr(a0), la0.size()), "C18/C01: block allocated after overlaps a live block allocated before the region");
+    }
+    assert!(unsafe { w1.read(addr(a0)) } == va0, "C18: data of a live block allocated before the region changed");
+    if dealloc_b {
+        core::mem::forget(bump);
+        kani::cover!(true, "END: harness ran to completion");
+        return;
+    }
     if i1 != 0 {
         assert!(i1 % l1.align() == 0, "C18/C01: inner block misaligned");
         assert!(disjoint(i1, l1.size(), addr(b), lb.size()), "C18: inner block overlaps the block allocated before");
